@@ -134,4 +134,49 @@ example : ([("a.com", "t1"), ("b.com", "t2")].map fun ht => exNorm ht.1).Nodup :
 example : decision (buildEntries exNorm [("a.com", "t1"), ("b.com", "t2")] [("t1", "p1")]) "" ["a.com"]
     = some ("p1", "t1") := by decide
 
+/-! ### GSLB: the meaning of a gslb conf does not depend on map order or reload history -/
+
+/-- **`C14_subcluster_sorted`**: whatever state the balancer of a cluster is in (any earlier history `g`), reloading the
+    conf `conf` (a Go map, ranged over in any order) leaves exactly the state a FRESH `Init` of the same conf
+    (ranged over in any other order `conf'`) produces — same sorted sub-cluster list, `totalWeight`, `single`,
+    and `avail` where it is used — hence the same sub-cluster for every hash value.
+    (Holds because `Reload` sorts BEFORE the weight pass; with the sort after it, `avail` indexes the unsorted list.) -/
+theorem C14_subcluster_sorted (g : Gslb) (hg : (g.subs.map (·.name)).Nodup) (conf conf' : List Sub)
+    (hp : conf.Perm conf') (hn : (conf.map (·.name)).Nodup) (hv : sumPos conf > 0) :
+    ∃ g', gslbInit conf' = some g' ∧ (gslbReload g conf).norm = g'.norm ∧
+      ∀ h, gslbSelect (gslbReload g conf) h = gslbSelect g' h := by
+  have hv' : ¬ sumPos conf ≤ 0 := by omega
+  have hne : sumPos conf' ≠ 0 := by rw [← sumPos_perm hp]; omega
+  have hnorm := reload_norm_eq g hg conf conf' hp hn hv'
+  refine ⟨initState conf', gslbInit_eq conf' hne, hnorm, fun h => ?_⟩
+  rw [← select_norm (gslbReload g conf), hnorm, select_norm]
+
+/-- **history independence**: start from a fresh load of ANY conf, apply ANY sequence of reloads (valid or rejected),
+    then reload `final`: every selection equals the one after a fresh load of `final` (in any map order). -/
+theorem C14_subcluster_history (first : List Sub) (g0 : Gslb) (h0 : gslbInit first = some g0)
+    (hist : List (List Sub)) (final final' : List Sub)
+    (hf : (first.map (·.name)).Nodup) (hh : ∀ c ∈ hist, (c.map (·.name)).Nodup)
+    (hp : final.Perm final') (hn : (final.map (·.name)).Nodup) (hv : sumPos final > 0) :
+    ∃ g', gslbInit final' = some g' ∧
+      ∀ h, gslbSelect (gslbReload (gslbHistory g0 hist) final) h = gslbSelect g' h := by
+  have hg := history_names_nodup hist g0 (init_names_nodup hf h0) hh
+  obtain ⟨g', h1, _, h3⟩ := C14_subcluster_sorted (gslbHistory g0 hist) hg final final' hp hn hv
+  exact ⟨g', h1, h3⟩
+
+/-- any correct sort gives the list the model's `mergeSort` gives (so pdqsort's instability is irrelevant) -/
+theorem C14_sort_unique (l s : List Sub) (hn : (l.map (·.name)).Nodup) (hp : s.Perm l)
+    (ho : s.Pairwise fun a b => subLe a b = true) : s = l.mergeSort subLe :=
+  sorted_perm_unique hn hp (List.mergeSort_perm l subLe) ho
+    (List.pairwise_mergeSort subLe_trans subLe_total l)
+
+/-- non-vacuity: the hypotheses are satisfiable, and the seeded scenario as an instance — running {sub-b:100}, reload to
+    {sub-c:0, sub-a:0, sub-b:100}: every selection equals the one after a fresh load of {sub-a, sub-b, sub-c}. -/
+example : (([⟨"sub-c", 0⟩, ⟨"sub-a", 0⟩, ⟨"sub-b", 100⟩] : List Sub).map (·.name)).Nodup ∧
+    sumPos [⟨"sub-c", 0⟩, ⟨"sub-a", 0⟩, ⟨"sub-b", 100⟩] > 0 := by decide
+example (g0 : Gslb) (h0 : gslbInit [⟨"sub-b", 100⟩] = some g0) :
+    ∃ g', gslbInit [⟨"sub-a", 0⟩, ⟨"sub-b", 100⟩, ⟨"sub-c", 0⟩] = some g' ∧
+      ∀ h, gslbSelect (gslbReload (gslbHistory g0 []) [⟨"sub-c", 0⟩, ⟨"sub-a", 0⟩, ⟨"sub-b", 100⟩]) h = gslbSelect g' h :=
+  C14_subcluster_history [⟨"sub-b", 100⟩] g0 h0 [] _ _ (by decide) (by simp)
+    (by decide) (by decide) (by decide)
+
 end BfeVerif.C14
